@@ -299,6 +299,11 @@ func checkC05(sc *Scenario, h *History) []Violation {
 		}
 		return out
 	}
+	if len(evs) == 0 && len(x.Want) == 0 && !x.Final {
+		// Only empty chunks were accepted and the message never ended: there
+		// was nothing to hand over, so no Data call is required.
+		return out
+	}
 	if len(evs) != 1 {
 		out = append(out, Violation{Rule: "C05.data-calls", Detail: fmt.Sprintf("expected exactly one Data call for the chunked message, got %d", len(evs)), Witness: wit})
 		return out
